@@ -306,6 +306,12 @@ def _space(n, k):
     return math.comb(n + k - 1, k)
 
 
+def xh_conditions(tier):
+    # machine-integer behaviour of the factorial normalisation (outside the real-arithmetic model of symx)
+    t = 240 if tier == "quick" else 480
+    return [dict(name=f"norm.{c}", file="xh/c04_norm.py", func=c, timeout=t, prop="C04") for c in ("_vector_factorial", "_bunched_slos", "_bunched_permanent")]
+
+
 def harnesses(tier):
     u1 = [dict(n=n, k=k) for n in ((2, 3) if tier == "quick" else (2, 3, 4)) for k in (1, 2, 3)]
     cap = 6 if tier == "quick" else 8
